@@ -324,7 +324,10 @@ def plot(input_fits, output_dir=None, select_format=("N", 1), plot_max=None,
             if flux.ndim > 1:
                 for j in range(flux.shape[1]):
                     lines.append(np.column_stack([_to_value(s.wav), _to_value(flux)[:, j]]))
-                    colors.append(color[color_type][j])
+                    if isinstance(color[color_type], list):
+                        colors.append(color[color_type][j])
+                    else:
+                        colors.append(color[color_type])
             else:
                 lines.append(np.column_stack([_to_value(s.wav), _to_value(flux)]))
                 colors.append(color[color_type])
